@@ -157,6 +157,40 @@ def build_tree(cls_name, f, lab="uniq"):
 
 
 def run_case(case, res):
+    if case.get("deep"):
+        # trees deeper than the interpreter's default recursion limit: same cases, run with a large stack and a raised limit
+        from ..core import run_with_deep_stack
+
+        done, exc = run_with_deep_stack(lambda: _run_case(case, res))
+        res.count("deep_cases")
+        if not done:
+            res.inconc("deep case did not finish")
+        elif exc is not None:
+            res.inconc(f"deep case: harness thread raised {type(exc).__name__}: {exc}")
+        return
+    return _run_case(case, res)
+
+
+def deep_forest(rng, depth):
+    """A spine of `depth` nodes with a few leaves hanging off it (before or after the spine child)."""
+    root = []
+    cur = root
+    for i in range(depth):
+        new = []
+        r = rng.random()
+        if r < 0.02:
+            cur.append([])
+            cur.append(new)
+        elif r < 0.04:
+            cur.append(new)
+            cur.append([])
+        else:
+            cur.append(new)
+        cur = new
+    return root
+
+
+def _run_case(case, res):
     from nutree import IterMethod
 
     f = gen.decode(case["f"])
@@ -356,6 +390,30 @@ def run_shard(spec, res):
                     return
     else:
         rng = rng_for(seed, "c06-rand", spec["i"])
+        # (a) trees deeper than the default recursion limit, (b) trees with a few hundred nodes
+        for j in range(spec.get("deep", 1)):
+            f = deep_forest(rng, rng.choice([1200, 2500]))
+            fc = gen.code(f)
+            n = gen.size(f)
+            for m in ITER_METHODS:
+                run_case({"cls": "plain", "f": fc, "start": -1, "method": m, "add_self": False, "mode": "iter", "deep": True}, res)
+            st = rng.randrange(n // 2)
+            run_case({"cls": "plain", "f": fc, "start": st, "method": rng.choice(ITER_METHODS), "add_self": True, "mode": "iter", "deep": True}, res)
+            for m in VISIT_METHODS:
+                run_case({"cls": "plain", "f": fc, "start": -1, "method": m, "add_self": False, "mode": "visit", "deep": True}, res)
+                run_case({"cls": "plain", "f": fc, "start": -1, "method": m, "add_self": False, "mode": "visit", "deep": True,
+                          "sig": {"at": rng.randrange(n), "form": rng.choice(FORMS)}}, res)
+        for j in range(spec.get("big", 2)):
+            f = gen.random_forest(rng, rng.randint(80, 400), style=rng.choice(["deep", "wide", "mixed", "chain"]))
+            fc = gen.code(f)
+            n = gen.size(f)
+            cls = rng.choice(["plain", "typed"])
+            for st in [-1] + rng.sample(range(n), 2):
+                for m in ITER_METHODS:
+                    run_case({"cls": cls, "f": fc, "start": st, "method": m, "add_self": st != -1 and rng.random() < 0.5, "mode": "iter"}, res)
+                for m in VISIT_METHODS:
+                    run_case({"cls": cls, "f": fc, "start": st, "method": m, "add_self": False, "mode": "visit",
+                              "sig": rng.choice([None, {"at": rng.randrange(n), "form": rng.choice(FORMS)}])}, res)
         for j in range(spec["count"]):
             n = rng.randint(8, 14)
             f = gen.random_forest(rng, n, style=rng.choice(["deep", "wide", "mixed", "chain", "star"]))
